@@ -333,7 +333,7 @@ pub fn run_impl(c: &Case) -> Result<Seen, String> {
     let xml = render(c);
     let fsm = std::panic::catch_unwind(|| scxml_reader::parse_from_xml(xml)).unwrap_or_else(|_| Err("reader panicked".into()))?;
     let batches = vec![vec![Event::new_simple("go")], vec![Event::new_simple("error.platform.cancel")]];
-    let out = run_session_feed_with(fsm, &batches, &[1, 2], false, Duration::from_secs(5), false, |log| mark_actions(log), &[]);
+    let out = run_session_feed_with(fsm, &batches, &[1, 2], true, Duration::from_secs(10), false, |log| mark_actions(log), &[]);
     if std::env::var("VH_DEBUG").is_ok() && (out.timed_out || out.panicked) {
         eprintln!("HUNG/PANIC dm={} trace tail: {:?}", c.dm, out.trace.iter().rev().take(12).collect::<Vec<_>>());
     }
